@@ -63,8 +63,15 @@ def sync(atoks, new_real):
         prev_ok = (p - 1) in fwd
         next_ok = p in fwd
         next_is_brace = p < len(old_real) and old_real[p] == ('p', '{')
+        # trailing block of the item (rule D8: sits between the tail expression and the final `}`): it must stay
+        # behind the whole new tail, so it is anchored to the closing brace when tokens were inserted in front of it
+        tail_block = (p == len(old_real) - 1 and old_real[p] == ('p', '}') and next_ok and prev_ok
+                      and fwd[p] != fwd[p - 1] + 1)
         if p == 0:
             q = 0
+        elif tail_block:
+            q = fwd[p]
+            changes.append(('anchor-tail-block', [], [new_real[fwd[p]]]))
         elif next_ok and (next_is_brace or not prev_ok):
             q = fwd[p]
         elif prev_ok:
